@@ -31,7 +31,11 @@ def main(chk):
 
     def one(k):
         d = env.subdir('c03-n%d' % k)
-        return k, progs.run_program(w2c2, ('c03', k), prof_for(k), d, pbuilds, n_funcs=10, vectors=vectors)
+        wide = (k % 8 == 5)  # many functions / globals / locals: indices that need two LEB128 bytes
+        if wide:
+            pw = gen.Profile(nan_canon=True, allow_trap=False, w_control=2.0, w_trace=1.0, w_call=2.0, max_depth=3, max_stmts=3, max_locals=160, max_size=60)
+            return k, progs.run_program(w2c2, ('c03', k), pw, d, pbuilds, n_funcs=140, vectors=3, opts=progs.opts_for(k), n_globals=150)
+        return k, progs.run_program(w2c2, ('c03', k), prof_for(k), d, pbuilds, n_funcs=10, vectors=vectors, opts=progs.opts_for(k))
 
     rejected = 0
     maxdepth = 0
